@@ -617,6 +617,8 @@ def r_assign(kind, st, cnt):
             if not isinstance(a, list) or not (-len(a) <= i < len(a)):
                 raise RefUndefined("bad subscripted assignment")
             a[i] = need_int(v)
+            if hasattr(st, "elem_log"):
+                st.elem_log.setdefault(lhs, set()).add(a[i])
 
     def nest(ls, cnt):
         if not ls:
